@@ -18,7 +18,7 @@ RULE = ("random sights: focal plane in {FFP, SFP, LWIR}, horizontal != vertical 
         "taken from rows of a real trajectory; plus construction rejections; a case = (sight, query); non-trivial "
         "when h click != v click and both corrections are non-zero")
 MUST_OBSERVE = ["clicks_checked", "plane_FFP", "plane_SFP", "plane_LWIR", "from_trajectory_row", "linearity_checked",
-                "rejections_checked", "unequal_clicks", "units_switched_after_construction", "sights_recalibrated_after_use"]
+                "rejections_checked", "unequal_clicks", "units_switched_after_construction", "sights_recalibrated_after_use", "from_event_row"]
 ASSUMPTIONS = ["click sizes and corrections converted to radians with R-SI (vf/refs_si.py)",
                "for SFP the product nominal x ratio x magnification is accepted in either linear reading (in radians "
                "or in the click's own unit); they differ only for the two tangent units, by < 1e-6"]
@@ -139,11 +139,25 @@ def check_case(ctx, case):
                 ctx.violation("linearity", f"{name}: clicks(k*a) = {b!r} but k*clicks(a) = {k * a!r} (k={k})", case)
     else:  # from a trajectory row
         shot = build.shot(case["shot"])
+        calc = Calculator()
+        if case.get("zero_ft"):
+            try:
+                calc.set_weapon_zero(shot, Distance.Foot(case["zero_ft"]))
+            except (pb.ZeroFindingError, pb.RangeError):
+                pass
         try:
-            rows = list(Calculator().fire(shot, Distance.Foot(case["range_ft"]), Distance.Foot(case["range_ft"] / 4)))
+            rows = list(calc.fire(shot, Distance.Foot(case["range_ft"]), Distance.Foot(case["range_ft"] / case.get("rows", 4)),
+                                  extra_data=bool(case.get("extra")), time_step=case.get("time_step", 0.0)))
         except pb.RangeError as err:
             rows = list(err.incomplete_trajectory)
         row = rows[min(case["row"], len(rows) - 1)]
+        if case.get("event_row"):
+            # a row that marks an event (sight-line crossing, sonic transition, apex) is a row like any other
+            flagged = [r for r in rows if int(r.flag) & ~int(pb.TrajFlag.RANGE) and (r.distance >> Distance.Meter) > 0]
+            if flagged:
+                row = flagged[case["row"] % len(flagged)]
+                ctx.count("from_event_row")
+                ctx.count("from_event_row_flag_%d" % (int(row.flag) & ~int(pb.TrajFlag.RANGE)))
         drop, wind = row.drop_adj.raw_value, row.windage_adj.raw_value
         case = dict(case, target={"m": (row.distance >> Distance.Meter), "unit": "Meter"})
         if case["target"]["m"] <= 0:
@@ -218,8 +232,17 @@ def gen_case(rng):
     shot = gen.shot(rng, flat=True, custom=0.0, cant=False, wind_n=1)
     shot["winds"] = [[rng.uniform(3, 30), rng.choice([90.0, 270.0, rng.uniform(0, 360)]), None]]
     shot["look_deg"] = rng.choice([0.0, round(rng.uniform(-35, 35), 1)])
-    return {"kind": "row", "sight": sight, "mag": mag, "shot": shot, "range_ft": round(rng.uniform(150, 900), 1),
+    case = {"kind": "row", "sight": sight, "mag": mag, "shot": shot, "range_ft": round(rng.uniform(150, 900), 1),
             "row": rng.choice([1, 2, 3, 4]), "switch_units_after_construction": switch}
+    if rng.random() < 0.5:
+        # the rows a shooter dials from: a zeroed rifle, the table with its event rows, the zero distance on the grid
+        shot["sight_height_in"] = rng.choice([1.5, 2.0, 3.0])
+        case["range_ft"] = rng.choice([600.0, 900.0, 1200.0])
+        case.update(zero_ft=rng.choice([150.0, 300.0, 600.0]), rows=rng.choice([2, 4, 8]), extra=rng.random() < 0.8,
+                    event_row=rng.random() < 0.6, row=rng.choice([1, 2, 3, 4, 5, 7]))
+        if rng.random() < 0.2:
+            case["time_step"] = rng.choice([0.05, 0.2])
+    return case
 
 
 def run(ctx):
